@@ -6,27 +6,34 @@
  *
  *   info
  *       -> "info attr_size=<sizeof(myth_thread_attr_t)> ptr=8 nfun=16 many_fid=3"
- *   bulk W kind n fs as rs is ts hasres hasids hasattrs
+ *   bulk W kind n fs as rs is ts hasres hasids hasattrs [cf sk seed]
  *       W workers (MYTH_NUM_WORKERS), kind = many | various, n items, byte strides of the
  *       function / argument / result / id / attribute arrays, and whether results / ids /
- *       attrs are passed (1) or NULL (0).
+ *       attrs are passed (1) or NULL (0).  Per-item attributes (slot j of the attrs array):
+ *       cf = child_first pattern: 0 all 0 (help-first / parent-first creation), 1 all 1, 2 = j mod 2,
+ *            3 = (j+1) mod 2, 4 = pseudo-random bit of (seed, j), 5 = what myth_thread_attr_init gives;
+ *       sk = stack size pattern: 0 all 128 KiB, 1 pseudo-random in {16,32,64,128,256} KiB, 2 all 0
+ *            (the library's default stack path), 3 pseudo-random mix of 1 and 2.  A custom stack size
+ *            carries the slot number j in its low 12 bits (the library rounds up to 4 KiB).
+ *       Defaults when omitted: cf = 5, sk = 0, seed = 0.
  *
  * Input layout: function slot j (at funcs + j*fs; only slot 0 when fs = 0) holds function number
  * j mod 16 (16 distinct C functions); `many` passes function number 3.  Function number k applied
  * to argument address x logs (k, x - args, myth_self()) and returns enc(k, x - args), a value whose
- * bytes are all in 0x40..0x7f.  Attribute slot j requests stack size STK_BASE + j, which the
- * alloc.stack hook event reports back, so the attribute slot used by every creation is observed.
+ * bytes are all in 0x40..0x7f.  Attribute slot j requests stack size pages(j)*4096 + j, which the
+ * alloc.stack hook event reports back, so the attribute slot used by every creation is observed
+ * (-2 is printed for a creation through a slot that asks for stack size 0).
  * Every array lives in a buffer pre-filled with 0xA5 with PAD bytes in front and behind.
  *
  * Output (one line, no addresses):
  *   ret=<r> inv=<fid:argoff:inl,...> res=<off:fid:argoff,...> resstray=<k> ids=<off,...>
- *   idmis=<k> idstray=<k> cre=<attr offset | -1,...> created=<k> reaped=<k> argchg=<k> funchg=<k> attrchg=<k>
+ *   idmis=<k> idstray=<k> cre=<attr offset | -1 | -2,...> created=<k> reaped=<k> argchg=<k> funchg=<k> attrchg=<k>
  * inv: every application (sorted; inl = 1 if it ran in the calling thread); res: every 8-byte slot
  * of the result buffer that now holds an encoded value (deduplicated), resstray: changed bytes of the
  * result buffer that are not part of such a slot; ids: offsets of the slots of the id buffer that hold
  * the handle of a thread that ran an application, idmis: slots
  * i*is whose handle is not that of the thread that ran item i (where the item is identifiable),
- * idstray: changed bytes of the id buffer that are not part of such a slot; cre: attribute slot offset of every creation (-1 = no attribute);
+ * idstray: changed bytes of the id buffer that are not part of such a slot; cre: attribute slot offset of every creation (-1 = no attribute, -2 = attribute with stack size 0);
  * created / reaped: create.init / join.reap hook events during the call; *chg: changed bytes in the
  * argument / function / attribute arrays. */
 #include <stdio.h>
@@ -44,7 +51,6 @@
 #define FILL 0xA5
 #define NFUN 16
 #define MANY_FID 3
-#define STK_BASE 131072
 #define MAXEV 200000
 #define RUNAWAY 20000
 #define CHILD_TIMEOUT 10
@@ -75,6 +81,30 @@ static void cb(int kind, const char * id, const void * obj, long val) {
     long k = __sync_fetch_and_add(&g_nstk, 1);
     if (k < MAXEV) g_stk[k] = val;
   }
+}
+
+/* per-slot pseudo-random number, the same formula as in ocaml/driver_C17.ml */
+static long slot_hash(long seed, long j) {
+  return (seed * 7919 + j * 104729 + ((j * j) % 1009) * 31) % 1000003;
+}
+static int slot_child_first(int cf, long seed, long j, int dflt) {
+  switch (cf) {
+  case 0: return 0;
+  case 1: return 1;
+  case 2: return (int)(j % 2);
+  case 3: return (int)((j + 1) % 2);
+  case 4: return (int)(slot_hash(seed, j + 7) % 2);
+  default: return dflt;
+  }
+}
+static int slot_stack_zero(int sk, long seed, long j) {
+  return sk == 2 || (sk == 3 && slot_hash(seed, j) % 3 == 0);
+}
+static size_t slot_stack(int sk, long seed, long j) {
+  static const long pages[5] = { 4, 8, 16, 32, 64 };
+  if (slot_stack_zero(sk, seed, j)) return 0;
+  if (sk == 0) return 32 * 4096 + (j & 0xfff);
+  return pages[slot_hash(seed, j + 1) % 5] * 4096 + (j & 0xfff);
 }
 
 static uint64_t enc(int fid, long off) {
@@ -136,7 +166,7 @@ static size_t g_len;
 #define OUT(...) do { g_len += snprintf(g_out + g_len, sizeof g_out - g_len, __VA_ARGS__); } while (0)
 
 static void run_bulk(int W, const char * kind, long n, size_t fs, size_t as, size_t rs, size_t is, size_t ts,
-                     int hasres, int hasids, int hasattrs) {
+                     int hasres, int hasids, int hasattrs, int cf, int sk, long seed) {
   char wbuf[16];
   size_t flen, alen, rlen, ilen, tlen, i;
   char * fbuf, * abuf, * rbuf, * ibuf, * tbuf, * fref, * tref;
@@ -162,7 +192,8 @@ static void run_bulk(int W, const char * kind, long n, size_t fs, size_t as, siz
   for (j = 0; j < (ts ? (n > 0 ? n : 1) : 1); j++) {
     myth_thread_attr_t at;
     myth_thread_attr_init(&at);
-    at.stacksize = STK_BASE + j;
+    at.child_first = slot_child_first(cf, seed, j, at.child_first);
+    at.stacksize = slot_stack(sk, seed, j);
     memcpy(tbuf + PAD + j * ts, &at, sizeof at);
   }
   fref = malloc(flen); memcpy(fref, fbuf, flen);
@@ -236,7 +267,7 @@ static void run_bulk(int W, const char * kind, long n, size_t fs, size_t as, siz
   {
     long ns = g_nstk < MAXEV ? g_nstk : MAXEV;
     long * s = malloc(sizeof(long) * (ns + 1));
-    for (j = 0; j < ns; j++) s[j] = g_stk[j] == 0 ? -1 : (long)((g_stk[j] - STK_BASE) * (long)ts);
+    for (j = 0; j < ns; j++) s[j] = g_stk[j] == 0 ? (hasattrs ? -2 : -1) : (long)((g_stk[j] & 0xfff) * (long)ts);
     qsort(s, ns, sizeof(long), cmp_long);
     for (j = 0; j < ns; j++) OUT("%s%ld", j ? "," : "", s[j]);
     free(s);
@@ -254,7 +285,7 @@ int main(void) {
   char line[1024];
   while (fgets(line, sizeof line, stdin)) {
     char op[32] = "", kind[32] = "";
-    int W = 1, hr = 0, hi = 0, ht = 0;
+    int W = 1, hr = 0, hi = 0, ht = 0, cf = 5, sk = 0, nf; long seed = 0;
     long n = 0; unsigned long fs = 0, as = 0, rs = 0, is = 0, ts = 0;
     if (sscanf(line, "%31s", op) != 1) continue;
     if (strcmp(op, "info") == 0) {
@@ -263,7 +294,8 @@ int main(void) {
       continue;
     }
     if (strcmp(op, "bulk") != 0 ||
-        sscanf(line, "%*s %d %31s %ld %lu %lu %lu %lu %lu %d %d %d", &W, kind, &n, &fs, &as, &rs, &is, &ts, &hr, &hi, &ht) != 11) {
+        ((nf = sscanf(line, "%*s %d %31s %ld %lu %lu %lu %lu %lu %d %d %d %d %d %ld", &W, kind, &n, &fs, &as, &rs, &is, &ts, &hr, &hi, &ht,
+                      &cf, &sk, &seed)) != 11 && nf != 14)) {
       printf("badcase\n"); fflush(stdout); continue;
     }
     fflush(stdout);
@@ -272,7 +304,7 @@ int main(void) {
       int st = 0;
       if (pid == 0) {
         alarm(CHILD_TIMEOUT);
-        run_bulk(W, kind, n, fs, as, rs, is, ts, hr, hi, ht);
+        run_bulk(W, kind, n, fs, as, rs, is, ts, hr, hi, ht, cf, sk, seed);
         _exit(0);
       }
       if (waitpid(pid, &st, 0) < 0) { printf("outcome=waitfail\n"); }
